@@ -64,5 +64,27 @@ def uniqueValues [DecidableEq α] (le : α → α → Bool) (xs : List α) : Lis
 def uniqueInverse [DecidableEq α] (le : α → α → Bool) (xs : List α) : List Nat :=
   xs.map fun x => (uniqueValues le xs).idxOf x
 
+/-- What reading an element of a fixed-width text array (`<U`n) returns for the string that was stored:
+numpy pads every element to the width with NUL characters and drops all trailing NULs when reading. -/
+def textRead (cs : List Char) : List Char := (cs.reverse.dropWhile (· == '\x00')).reverse
+
+/-- The merge step of `numpy.unique` (`numpy/lib/_arraysetops_impl.py`, `_unique1d`) on the sorted
+array `aux`: `mask[:1] = True; mask[1:] = aux[1:] != aux[:-1]; aux[mask]` -- an element is kept exactly
+when it differs from its immediate predecessor `prev`. -/
+def keepFirstsFrom (ne : α → α → Bool) (prev : α) : List α → List α
+  | [] => []
+  | y :: t => if ne y prev then y :: keepFirstsFrom ne y t else keepFirstsFrom ne y t
+
+/-- `aux[mask]`: the first element and every element that differs from its predecessor. -/
+def keepFirsts (ne : α → α → Bool) : List α → List α
+  | [] => []
+  | x :: t => x :: keepFirstsFrom ne x t
+
+/-- `numpy.unique` the way numpy computes it: sort, then drop what equals its predecessor.
+(`uniqueValues` above is the specification: the distinct values in order; `C09.numpy_unique_*` relate
+the two.) -/
+def uniqueSortMerge (le ne : α → α → Bool) (xs : List α) : List α :=
+  keepFirsts ne (xs.mergeSort le)
+
 end Np
 end Enc
